@@ -453,6 +453,9 @@ type RealOut struct {
 	Calls    []fnCall
 	// Help()
 	HelpText string
+	// oracles on the implementation alone
+	ArgsMutated string // the caller's argument slice was modified by Parse
+	ReparseDiff string // an option changed when an empty command line was parsed afterwards
 	// completion
 	ExitCodes []int
 	Stdout    string
@@ -524,7 +527,15 @@ func runRealInner(c *Case, out *RealOut) {
 		out.Calls = rp.calls
 		return
 	}
+	argsCopy := append([]string(nil), c.Args...)
 	rem, err := root.Parse(c.Args)
+	for i := range argsCopy {
+		if i >= len(c.Args) || c.Args[i] != argsCopy[i] {
+			out.ArgsMutated = fmt.Sprintf("%q -> %q", argsCopy, c.Args)
+			copy(c.Args, argsCopy)
+			break
+		}
+	}
 	out.Rem, out.RemNil = rem, rem == nil
 	out.Writer = w.String()
 	if err != nil {
@@ -551,8 +562,33 @@ func runRealInner(c *Case, out *RealOut) {
 		}
 		out.Calls = rp.calls
 	}
+	if c.Reparse && err == nil {
+		// Parsing an empty command line on the already parsed object changes no option: value, Called and
+		// CalledAs are what they were (decided on the implementation alone)
+		var w2 bytes.Buffer
+		getoptions.Writer = &w2
+		root.Parse([]string{})
+		getoptions.Writer = &w
+		after := map[string]string{}
+		for i, h := range rp.holders {
+			after["p"+strconv.Itoa(i)] = h.value()
+		}
+		for h, g := range rp.handles {
+			view(g, keys, "n"+strconv.Itoa(h)+".", after)
+		}
+		for k, v := range out.P {
+			if after[k] != v {
+				out.ReparseDiff = fmt.Sprintf("%s: %q before, %q after Parse([])", k, v, after[k])
+				break
+			}
+		}
+	}
 	if c.Help {
-		out.HelpText = root.Help()
+		secs := make([]getoptions.HelpSection, len(c.HelpSecs))
+		for i, sec := range c.HelpSecs {
+			secs[i] = getoptions.HelpSection(sec)
+		}
+		out.HelpText = root.Help(secs...)
 	}
 }
 
